@@ -57,6 +57,10 @@ CHECKS = {
    tech="explicit-state exploration of the byte-at-a-time reader over all strings up to a length bound, locations checked against an independent tokenizer",
    text="The reader is a state machine (ParsePartialResult::push); every string of length <= 5 (thorough 7) over a 16-symbol alphabet covering every lexical class, and every sequence of <= 4 (5) token/separator units over 15 tokens x 4 separators (multi-line, comments, both quote styles with escapes, #-forms, dotted tails), is pushed byte by byte from the initial state, finalized and also parsed whole. An independent tokenizer gives every leaf's exact span and every list's parentheses; whole vs byte-wise results are compared including locations; error locations must be in bounds. states = strings reached, transitions = push calls.",
    note="Trusted: the harness tokenizer (its lexical rules are the reader's documented ones; accepted texts whose shape it does not model are counted and make no claim). Compiler-error locations are checked in C14."),
+ "C16": dict(engine="replmc", cat="model_checking", ref="DESIGN.md 4/C16",
+   tech="explicit-state exploration of REPL histories (all define-before-use orders) on the real Repl, results checked against the compiled program",
+   text="The subject is the REPL state machine (Repl::process_line over the Evaluator). For 3 definition pools covering defun / defun-inline / defconstant / template defmacro with dependencies, destructuring parameters and &rest, every order that defines before use (24 + 12 + 6 histories) is replayed on a fresh Repl, followed by each of ~50 (thorough: several hundred composed) closed and open expressions. Checked: order independence of the result; constants equal the compiled program's value; residuals of open expressions compile and agree with the original program on 25 valuations.",
+   note="Trusted: clvmr; compile_file with the REPL's own default options builds the comparison programs. REPL errors (depth limit) make no claim. Known finding F27 (variables in `if` branches of a residual) matched by expression class."),
  "C17": dict(engine="progmc", cat="exploration", ref="DESIGN.md 4/C17",
    tech="exhaustive enumeration of usage-class assignments, exhaustive non-interference check over all valuation pairs",
    text="All 8^k assignments of 8 usage classes to k <= 3 (thorough 4) lower-case parameters, in flat / nested / dotted parameter lists and 2 sigils; for each parameter the unused-argument check reports, every pair of valuations differing only in that parameter (3-value alphabet, all combinations of the others) is run on the compiled program and must give identical outcomes.",
